@@ -106,6 +106,7 @@ func opPaths(o fsxOp) []string {
 			continue // the target of a symlink is not resolved by the call
 		}
 
+		p = cleanAbs(p)
 		p = strings.Replace(p, "/a/lb", "/b", 1)
 		if p == "/a/l" {
 			p = "/a/f"
@@ -126,6 +127,8 @@ func rawPaths(o fsxOp) []string {
 
 	for i, p := range []string{o.P, o.Q} {
 		if strings.HasPrefix(p, "/") && !(o.K == "Symlink" && i == 0) {
+			p = cleanAbs(p)
+
 			if o.K == "CreateTemp" || o.K == "MkdirTemp" {
 				p += "/t"
 			}
@@ -239,7 +242,7 @@ func crossPairs(cfg *concCfg) []string {
 
 // dropKnownPairs removes from the program the calls that would form, with a call already kept in
 // another client, a pair listed as a known finding (filtered mode: explore what lies behind them).
-func dropKnownPairs(c *sim.Ctx, cfg *concCfg) {
+func dropKnownPairs(c *sim.Ctx, cfg *concCfg, prop string) {
 	kept := make([][]fsxOp, len(cfg.Progs))
 
 	for ci := range cfg.Progs {
@@ -254,15 +257,15 @@ func dropKnownPairs(c *sim.Ctx, cfg *concCfg) {
 				}
 
 				for _, k := range kept[cj] {
-					if _, ok := c.Known["C06|"+pairKey(cfg.FS, o, k)]; ok {
+					if _, ok := c.Known[prop+"|"+pairKey(cfg.FS, o, k)]; ok {
 						bad = true
 					}
 
-					if _, ok := c.Known["C06|"+cfg.FS+ancRaceSig]; ok && pairRel(o, k) == "anc" {
+					if _, ok := c.Known[prop+"|"+cfg.FS+ancRaceSig]; ok && pairRel(o, k) == "anc" {
 						bad = true
 					}
 
-					if _, ok := c.Known["C06|"+cfg.FS+nameRaceSig]; ok && nameRace(o, k) {
+					if _, ok := c.Known[prop+"|"+cfg.FS+nameRaceSig]; ok && nameRace(o, k) {
 						bad = true
 					}
 				}
@@ -283,7 +286,7 @@ func (p C06) Run(c *sim.Ctx, t *sim.Tape) sim.RunResult {
 	cfg := genConc(t, []string{"memfs", "orefafs"}, 4, 3, false)
 
 	if filtered {
-		dropKnownPairs(c, cfg)
+		dropKnownPairs(c, cfg, "C06")
 		c.Count("runs_filtered_known_pairs", 1)
 	}
 
